@@ -183,8 +183,8 @@ def observe(cfg, want):
             return obs
         # solver results carry a rounding error of about eps*cond: widen the lifting tolerance
         # accordingly and bound the denominator so that the lift stays unambiguous
-        tol_c = max(lift.TOL, 1e-14 * cond)
-        q_c = min(lift.QMAX, int((0.5 / tol_c) ** 0.5))
+        tol_c = max(lift.TOL, 2e-15 * cond)
+        q_c = max(64, min(lift.QMAX, int((1e-6 / (0.61 * tol_c)) ** 0.5)))     # coincidental lift < 1e-6
 
         def lift_sol(arr):
             return lift.lift_array(arr, tol=tol_c, qmax=q_c)[0]
@@ -240,8 +240,8 @@ def observe(cfg, want):
             for s_ in SIDES[a]:
                 side = getattr(v_h.BCs, s_)
                 side.c[...] = to_float_array(cfg["bc"][s_]["c2"]).reshape(side.c.shape)
-        v_h.value = old2
-        P.solvePDE(v_h, terms_for(v_h, g2))
+        # (no assignment to .value in between: only the boundary data changed)
+        P.solvePDE(v_h, terms_for(v_h, derive_gamma(xs2, interior(xs))))
         obs["r_history"] = lift_sol(np.asarray(v_h._value))
         # pieces needed by the residual clause (C12), all lifted from the code
         obs["Aspatial"] = opsdrive.mat_entries(A, c.dims) if A is not None else []
